@@ -18,6 +18,7 @@ Shared by harness/props/c06.py and c15.py (each applies its own oracles and non-
 world; the parent talks to the driver."""
 import datetime as _dt
 import multiprocessing as mp
+import json
 import os
 import re
 
@@ -257,9 +258,32 @@ def add_user(w, kind, base, kdf, password):
     if not w.enc or kind == 'clone':
         return w._new_user(b.key, b.password, False, False, 'clone', like=b).idx
     repo = w.repo(base)
-    with R.quiet():
-        res = R.run(repo.add_key(password=password, settings={'encryption': {'kdf': dict(kdf)}}, shared=(kind == 'shared')))
+    # the key reaches its user the way the command delivers it: returned to a library caller, printed (the README's default flow: the
+    # user saves what add-key prints), or written to --key-output-file; all three must be the same sealed key
+    how = ('api', 'stdout', 'file')[(len(w.users) + sum(password)) % 3]
+    out_path = None
+    if how == 'file':
+        import tempfile
+        fd, out_path = tempfile.mkstemp(prefix='key_', dir=str(w.scratch.root))
+        os.close(fd)
+    with R.quiet() as (so, _):
+        res = R.run(repo.add_key(password=password, settings={'encryption': {'kdf': dict(kdf)}}, shared=(kind == 'shared'), key_output_path=out_path))
     key = bytes(repo.serialize(res.new_key))
+    w.key_delivery = getattr(w, 'key_delivery', [])
+    if how == 'stdout':
+        text = so.getvalue()
+        start = text.find('{')
+        try:
+            json.loads(text[start:])
+            key = text[start:].encode()
+        except ValueError:
+            how = 'stdout-unparsed'
+    elif how == 'file':
+        try:
+            key = open(out_path, 'rb').read()
+        finally:
+            os.unlink(out_path)
+    w.key_delivery.append(how)
     if kind == 'shared':
         return w._new_user(key, password, True, False, 'shared', like=b).idx
     return w._new_user(key, password, True, True, 'independent').idx
